@@ -5,7 +5,7 @@ import collections, concurrent.futures, hashlib, os, re
 from . import common, l1, loopgen
 
 PROP = "C18"
-LEANCHECK_MODULES = ["Ivy.L1.Ledger", "Ivy.Props.C18"]
+LEANCHECK_MODULES = ["Ivy.L1.Ledger", "Ivy.Props.C18", "Ivy.L0.Tls", "Ivy.Props.C18tls"]
 FAMILIES = ["cycles", "storm", "mix"]
 SANS = ["heap-use-after-free", "heap-buffer-overflow", "stack-buffer-overflow", "global-buffer-overflow", "SEGV", "double-free",
         "attempting free", "runtime error", "LeakSanitizer", "abort"]
@@ -59,6 +59,112 @@ def flags_oracle(log):
 l1.LOG_ORACLES[PROP] = flags_oracle
 
 
+# ---- iv_tls registry: T-diff against Ivy.L0.Tls + an independent layout oracle on the implementation's own output
+TLS_HARNESS = os.path.join(common.BUILD, "tls_h")
+
+
+def tls_build():
+    return common.cc(TLS_HARNESS, [os.path.join(common.VERIF, "harness", "tls_h.c")], extra=[f'-DTLS_SRC="{common.REPO}/src/iv_tls.c"'])
+
+
+def tls_ops(rng):
+    ops = []
+    for _ in range(rng.choice([1, 2, 4])):
+        ops.append("base 0")
+        n = rng.choice([0, 1, 2, 5, 12, 40])
+        for _ in range(n):
+            ops.append(f"reg {rng.choice([0, 1, 7, 8, 15, 16, 17, 24, 31, 32, 33, 100, 1000, 4096, 65537])} {rng.randrange(2)} {rng.randrange(2)}")
+            if rng.random() < 0.2:
+                ops.append("total")
+        ops.append("total")
+        for _ in range(rng.choice([1, 1, 3])):
+            ops.append("tinit")
+            for _ in range(rng.choice([0, 2, 6])):
+                ops.append(f"ptr {rng.randrange(n)}" if n and rng.random() < 0.8 else "ptr-unreg")
+            if rng.random() < 0.5:
+                ops.append(f"reg {rng.choice([0, 8, 100])} 1 1")     # after iv_init: must be refused
+            ops.append("tdeinit")
+    return ops
+
+
+def tls_oracle(ops, out):
+    """independent statement: regions aligned, above struct iv_state, inside the block, pairwise disjoint; hooks called for
+    exactly the modules that have one, in registration order, with their own region; registered modules never fatal"""
+    if len(out) != len(ops):
+        return f"implementation produced {len(out)} lines for {len(ops)} ops: {out[-1] if out else ''}"
+    base, regs, inited = None, [], False
+    for op, l in zip(ops, out):
+        w, r = op.split(), l.split()
+        if w[0] == "base":
+            base, regs, inited = int(r[1]), [], False
+        elif w[0] == "reg":
+            if inited:
+                if r[0] != "FATAL":
+                    return f"registration after iv_init was accepted: {l}"
+                continue
+            if r[0] != "REG":
+                return f"registration before iv_init failed: {l}"
+            off, sz = int(r[1]), int(w[1])
+            if off % 16 or off < base or off == 0:
+                return f"region offset {off} is not a 16-aligned offset above struct iv_state ({base} bytes)"
+            for (o2, s2, _, _) in regs:
+                if not (o2 + s2 <= off):
+                    return f"region [{off},{off+sz}) overlaps or precedes the earlier region [{o2},{o2+s2})"
+            regs.append((off, sz, w[2] == "1", w[3] == "1"))
+        elif w[0] == "total":
+            t = int(r[1])
+            if any(o + s > t for (o, s, _, _) in regs) or t < base:
+                return f"iv_tls_total_state_size()={t} does not cover every region"
+        elif w[0] == "tinit":
+            inited = True
+            if [int(x) for x in r[1:]] != [o for (o, s, hi, hd) in regs if hi]:
+                return f"init hooks called with {r[1:]}, registry says {[o for (o, s, hi, hd) in regs if hi]}"
+        elif w[0] == "tdeinit":
+            if [int(x) for x in r[1:]] != [o for (o, s, hi, hd) in regs if hd]:
+                return f"deinit hooks called with {r[1:]}, registry says {[o for (o, s, hi, hd) in regs if hd]}"
+        elif w[0] == "ptr":
+            if r != ["PTR", str(regs[int(w[1])][0])]:
+                return f"iv_tls_user_ptr of module {w[1]} gave {l}, its region is at {regs[int(w[1])][0]}"
+        elif w[0] == "ptr-unreg":
+            if r[0] != "FATAL":
+                return f"iv_tls_user_ptr accepted an unregistered module: {l}"
+    return None
+
+
+def tls_check(tier, seed, res):
+    import random
+    ok, log = tls_build()
+    if not ok:
+        res.divergences.append(("white-box harness for iv_tls.c no longer compiles: " + log[-300:], None))
+        return
+    rng = random.Random(seed * 7919 + 18)
+    nreg = 0
+    for i in range(40 if tier == "quick" else 600):
+        ops = tls_ops(rng)
+        a = common.run_cmd([TLS_HARNESS], "\n".join(ops) + "\n")
+        al = [x.rstrip() for x in a.stdout.splitlines()]
+        res.evaluations += 1
+        nreg += sum(1 for o in ops if o.startswith("reg"))
+        msg = tls_oracle(ops, al)
+        if msg is None and a.returncode != 0:
+            msg = f"harness exit {a.returncode} {common.san_line(a.stderr)}"
+        if msg:
+            small = common.shrink(ops, lambda o: bool(o) and o[0].startswith("base") and (lambda b: tls_oracle(o, [x.rstrip() for x in b.stdout.splitlines()]) is not None or b.returncode != 0)(common.run_cmd([TLS_HARNESS], "\n".join(o) + "\n")))
+            res.impl_violations.append(("C18:tls:" + l1.norm_sig(msg)[:60], "hygiene (per-module thread state): " + msg, common.write_case(PROP, f"tls-{i}", small, tier, seed, ext="tlsops")))
+            return
+        base = al[0].split()[1] if al else "0"
+        mops = [("base " + base) if o.startswith("base") else o for o in ops]
+        b = common.run_cmd([common.REPLAY_BIN, "tls"], "\n".join(mops) + "\n")
+        bl = [x.rstrip() for x in b.stdout.splitlines()]
+        if al != bl:
+            d = next((k for k, (x, y) in enumerate(zip(al, bl)) if x != y), min(len(al), len(bl)))
+            res.divergences.append((f"model Ivy.L0.Tls and iv_tls.c disagree at op '{ops[d] if d < len(ops) else '?'}': impl={al[d] if d < len(al) else '<none>'} model={bl[d] if d < len(bl) else '<none>'}",
+                                    common.write_case(PROP, f"tls-{i}-div", ops[:d + 1], tier, seed, ext="tlsops")))
+            return
+        res.nontrivial.add("tls-" + hashlib.sha1(" ".join(ops).encode()).hexdigest()[:12])
+    res.extra["tls_registrations_compared"] = nreg
+
+
 def churn_scenario(n, seed):
     L = [f"cfg seed={seed} waitlimit=40", "thread 0", "obj timer t0", "do trel t0 40000000", "main"]
     for k in range(1, n + 1):
@@ -104,6 +210,7 @@ def run(tier, seed, proof):
                     return mm is not None and l1.norm_sig(mm) == m
                 small = l1.shrink_scenario(r.lines, pred, budget=60)
                 res.impl_violations.append((f"C18:ledger:{l1.norm_sig(msg)}", "hygiene: " + msg, common.write_case(PROP, r.name, small, tier, seed, ext="scn")))
+    tls_check(tier, seed, res)
     # thread churn: the end-of-run ledger must not depend on how many threads came and went
     ok, log = common.build_mt()
     if not ok:
@@ -136,6 +243,14 @@ def search(tier, seed, proof):
 
 
 def replay(path):
+    if path.endswith(".tlsops"):
+        tls_build(); common.lean_build(["ivyreplay"])
+        ops = [l.strip() for l in open(path) if l.strip() and not l.startswith("#")]
+        a = common.run_cmd([TLS_HARNESS], "\n".join(ops) + "\n")
+        print(a.stdout, a.stderr[-1500:])
+        msg = tls_oracle(ops, [x.rstrip() for x in a.stdout.splitlines()])
+        print("--- layout oracle:", msg or "ok")
+        return 1 if (msg or a.returncode != 0) else 0
     if path.endswith(".mtscn") or "thread 0" in open(path).read():
         common.build_mt()
         out, err, rc = run_mt([l.rstrip("\n") for l in open(path) if not l.startswith("#")])
